@@ -31,6 +31,28 @@ def plan(tier, seed, kf_ids):
                     code = "c07_%s!(%s, %s, %s, %s%s);" % (body, name, t, i, WIDE[w], extra)
                     jobs.append(Job(name, code, "for all a and all non-zero divisors of %s: %s (oracle: %s arithmetic)" % (al, desc, WIDE[w]),
                                     timeout=900 if w == 8 else 3000, inst=al, bounds="all 2^%d operand pairs" % (2 * w)))
+    # widths 32 and 64: every dividend against CONSTANT divisors whose dividers the back end can relate (+-1, powers of two, 3*2^k,
+    # the minimum): the special cases of the remainder code (-1, minimum, divisors that do not fit the type's integer part)
+    for s in ("I", "U"):
+        for w, wide in ((32, "i128"), (64, "i128")):
+            for f in ([w // 2] if q else [0, w // 2, w]):
+                t, i, al, tg = c.ty(s, w, f), c.inner(s, w), c.alias(s, w, f), c.tag(s, w, f)
+                mn = "<%s>::MIN" % i if s == "I" else "(1 << %d)" % (w - 1)
+                fixed_divs = [("ulp", "1"), ("one", "1 << %d" % f if f < w - (1 if s == "I" else 0) else "1 << %d" % (w - 2)), ("min", mn), ("big", "1 << %d" % (w - 2))]
+                int_divs = [("one", "1"), ("two", "2"), ("three", "3"), ("min", mn), ("nofit", "1 << %d" % max(0, min(w - 2, w - f - (1 if s == "I" else 0)))),
+                            ("big", "1 << %d" % (w - 2))]
+                if s == "I":
+                    fixed_divs += [("mulp", "-1"), ("mone", "-(1 << %d)" % (f if f < w - 1 else w - 2))]
+                    int_divs += [("mone", "-1"), ("mthree", "-3")]
+                for body, extra, divs in (("rem", "", fixed_divs), ("diveuc", ", %d" % f, fixed_divs), ("remint", ", %d" % f, int_divs),
+                                          ("diveucint", ", %d" % f, int_divs)):
+                    if w == 64 and body != "rem":
+                        continue   # a << f needs more than the 128 bits of the oracle's word
+                    for dn, dexpr in divs:
+                        name = "c07_%s_%s_by_%s" % (body, tg, dn)
+                        code = "c07_%s!(%s, %s, %s, %s%s; %s);" % (body, name, t, i, wide, extra, dexpr)
+                        jobs.append(Job(name, code, "for every dividend of %s and the constant divisor %s: %s forms against %s arithmetic" % (al, dexpr, body, wide),
+                                        timeout=900, inst=al, bounds="all 2^%d dividends, one divisor" % w))
     for k in kf_ids:
         jobs.append(Job("kfw_" + k, "", "witness of known finding %s (concrete operands)" % k, timeout=300, kf=k,
                         inst="witness", bounds="concrete operands"))
@@ -40,10 +62,10 @@ def plan(tier, seed, kf_ids):
         "functions": ["macros_no_frac.rs: checked_rem, checked_rem_euclid, rem_euclid", "arith.rs: Rem for fixed and integer divisors",
                       "macros_frac.rs: {checked,saturating,wrapping,overflowing}_div_euclid, div_euclid, checked_rem_int, "
                       "{checked,wrapping,overflowing}_{div,rem}_euclid_int, div_euclid_int, rem_euclid_int"],
-        "bounds": "all operand pairs; width 8: every operation, every fractional count 0..=8, both signs; width 16: the "
+        "bounds": "widths 32/64: all dividends against constant divisors (+-1, +-1.0, powers of two, 3, minimum, divisors that do not fit the integer part); all operand pairs; width 8: every operation, every fractional count 0..=8, both signs; width 16: the "
                   "integer-divisor forms at fractional count 8 (quick) / {0,8,16} (thorough)",
-        "outside": ["widths 32, 64, 128: the SAT back end cannot relate the library's divider to a second (oracle) divider at "
-                    "these widths (probes in DESIGN.md); the code is one macro body for all widths"],
+        "outside": ["widths 32, 64 with symbolic divisors and width 128: the SAT back end cannot relate the library's divider to a second "
+                    "(oracle) divider at these widths (probes in DESIGN.md); the code is one macro body for all widths"],
         "assumptions": ["divisor non-zero (zero divisors: C02 divzero obligations)",
                         "plain div_euclid / rem_euclid_int only called when the result is representable"],
         "stubs": [],
